@@ -1,11 +1,11 @@
 """C12 — disconnect-peer handling and reconnect policy (Mon_C12.tla)"""
 from . import nodecommon as nc
-from .c12_plan import PROFILE, plans, ASSUME
+from .c12_plan import PROFILE, plans, ASSUME, enum_plans
 
 
 def run(tier, seed):
     mc, sim = plans(tier)
-    ck = nc.run_property("C12", tier, seed, "Inv12", PROFILE, mc, sim, 1500 if tier == "thorough" else 240, ASSUME)
+    ck = nc.run_property("C12", tier, seed, "Inv12", PROFILE, mc, sim, 1500 if tier == "thorough" else 240, ASSUME, enum_plan=enum_plans(tier))
     return ck.finish()
 
 
